@@ -850,6 +850,38 @@ theorem tolerant_fill_not_injective :
     procTable (some 100000) 0 [[5, 99997, 99998, 99999]]
       ≠ procTable (some 100000) 0 [[5, 99997, 99998, 100000]] := by decide
 
+/-! ## the stored coordinate representation is not an input of `==` -/
+
+/-- **`==` compares longitude / latitude values whatever the grids store** (spherical, Cartesian
+    or both; whatever was read before). -/
+theorem eq_ignores_stored_representation (a b : Grid) (s₁ t₁ s₂ t₂ : Bool) :
+    gridEqS ⟨a, s₁, t₁⟩ ⟨b, s₂, t₂⟩ = gridEq a b := rfl
+
+theorem eqS_sound (a b : SGrid) (h : gridEqS a b = true) : Same a.g b.g := eq_sound _ _ h
+
+/-- comparing only the representations BOTH grids already store is wrong: a grid storing
+    lon/lat and one storing x/y/z (same format, same connectivity, `wA`/`wB`: different
+    longitudes) have no representation in common, nothing is compared, and they are called equal —
+    until one side's longitudes happen to have been derived (state dependence). -/
+theorem common_subset_wrong (xyzEq : Bool) :
+    gridEqCommon xyzEq ⟨wA, true, false⟩ ⟨wB, false, true⟩ = true ∧
+    gridEqCommon xyzEq ⟨wA, true, false⟩ ⟨wB, true, true⟩ = false ∧
+    gridEqS ⟨wA, true, false⟩ ⟨wB, false, true⟩ = false ∧
+    ¬ Spec wA wB (gridEqCommon xyzEq ⟨wA, true, false⟩ ⟨wB, false, true⟩)
+        (!gridEqCommon xyzEq ⟨wA, true, false⟩ ⟨wB, false, true⟩) := by
+  cases xyzEq <;>
+  · refine ⟨by decide, by decide, by decide, ?_⟩
+    intro h
+    have := (specB_iff _ _ _ _).mpr h
+    revert this
+    decide
+
+/-- the common-subset comparison is right when both grids store longitude / latitude. -/
+theorem common_partial (xyzEq : Bool) (a b : SGrid) (ha : a.hasLL = true) (hb : b.hasLL = true)
+    (hx : a.hasXYZ = false ∨ b.hasXYZ = false) : gridEqCommon xyzEq a b = gridEqS a b := by
+  unfold gridEqCommon gridEqS gridEq
+  rcases hx with hx | hx <;> simp [ha, hb, hx]
+
 /-- what `or` computes: it forgets one of the two coordinate comparisons. -/
 theorem asis_eq_iff (a b : Grid) :
     gridEqAsIs a b = true ↔
